@@ -13,7 +13,7 @@ RULE = ("bounded-exhaustive: every multiset of 1..5 (thorough 6) items over 0..4
         "instance is solved by complete greedy under all 16 switch masks x {maxmin,minmax,diff}, by ckk/snp/rnp (diff), by dp "
         "(2 of 5 objectives) and, for values <= 200, by ilp (1 of 5 objectives); non-trivial = n > numbins >= 2 and LPT's value "
         "differs from the optimum of that objective; distinct on (algorithm, config, sorted values, numbins); every 10th (thorough: 4th) instance is of class manysmall: "
-        "11-13 items with values <= 15, where O1 stays cheap, solved by cg (9 configurations), snp, rnp and ckk (<= 3 bins); 40% of each shard: certificate pairs "
+        "11-13 items with values <= 15, where O1 stays cheap, solved by cg (9 configurations), snp, rnp and ckk (<= 3 bins); 25% of each shard: certificate pairs "
         "(snp vs complete greedy on 9-12 items, 4-5 bins, values <= 1000; a strictly better validated partition refutes the other)")
 ASSUMPTIONS = ["O1 enumerates all sorted sum-vectors (n <= 10)", "ilp disagreements are re-solved with CBC preprocessing off; agreement then = inconclusive(solver)",
                "rnp: numbins <= 5 (numbins >= 6 is KF-rnp-k6, no value returned)"]
@@ -169,6 +169,15 @@ def run_certificate_pair(k, values, rng, ctx):
     ctx.counters["certificate_pairs"] += 1
 
 
+def run_cg_focus(k, values, rng, ctx):
+    vectors = O.sum_vectors(values, k)
+    optcache = {}
+    base = {"kind": "partition", "k": k, "values": values, "cls": "cg_focus", "pres": "list", "pres_seed": 0, "alg": "cg"}
+    for name in ("maxmin", "minmax", "diff"):
+        for mask in (0b1011, rng.randrange(16)):          # default switches (bound, fast bound, seen states) and one random combination
+            judge_one(dict(base, objective=[name, None], cg_mask=mask), vectors, ctx, optcache)
+
+
 def run_instance(cls, k, values, rng, ctx, algs=None, full_grid=False):
     n = len(values)
     vectors = O.sum_vectors(values, k)
@@ -217,15 +226,25 @@ def run_shard(spec, rng, ctx):
                 run_instance("grid_exhaustive", k, list(ms), rng, ctx, full_grid=True)
                 ctx.counters["grid_exhaustive_instances"] += 1
         ctx.counters["grid_exhaustive_complete_shards"] += int(complete)
-        # 40% of the budget: snp vs complete greedy beyond the exhaustive oracle's size (pruning defects of snp show at >= 4 bins and >= 9-10 items)
-        pair_end = C.now() + 0.4 * float(spec.get("budget_s", 60))
+        # 25% of the budget: snp vs complete greedy beyond the exhaustive oracle's size (pruning defects of snp show at >= 4 bins and >= 9-10 items)
+        pair_end = C.now() + 0.25 * float(spec.get("budget_s", 60))
         while C.now() < pair_end:
             k = rng.choice([4, 4, 4, 5])
             # 10 items is the sweet spot (snp ~50 ms); the thorough tier also goes to 11-12 items
             n = 10 if (spec.get("tier") != "thorough" or rng.random() < 0.7) else rng.randint(11, 12 if k == 4 else 11)
             run_certificate_pair(k, [rng.randint(1, rng.choice([30, 100, 100, 100, 300])) for _ in range(n)], rng, ctx)
         while i < spec["max_instances"] and C.now() < end:
-            if i % (4 if spec.get("tier") == "thorough" else 10) == 3:
+            if i % 8 != 0:
+                # complete-greedy focus: MANY cheap instances (3-5 bins, 5-8 items, values up to 100), each under 6 configurations (3 objectives x the default
+                # switches and one random mask): pruning rules that cut an optimal leaf only on a rare arithmetic coincidence of the input need instance volume
+                k = rng.choice([3, 3, 4, 5])
+                vals = [rng.randint(0 if rng.random() < 0.1 else 1, rng.choice([20, 30, 100])) for _ in range(rng.randint(5, 8 if k <= 4 else 7))]
+                run_cg_focus(k, vals, rng, ctx)
+                ctx.counters["cg_focus_instances"] += 1
+                i += 1
+                continue
+            j = i // 8        # index among the non-focus instances
+            if j % (4 if spec.get("tier") == "thorough" else 10) == 3:
                 k = rng.choice([2, 3, 3, 4])
                 run_manysmall(k, [rng.randint(0 if rng.random() < 0.1 else 1, rng.choice([4, 9, 15])) for _ in range(rng.randint(11, 13))], rng, ctx)
             else:
